@@ -6,7 +6,11 @@
  * write/writev/pwrite64 on descriptors obtained from such opens, unlink(at), mkdir(at),
  * rmdir, chmod, fchmod (on such descriptors), rename(at), ftruncate, link, symlink.
  *
- * Log line: "<k> <tid> <op> <path> <ok|FAIL:<errno>|err:<errno>>"
+ * FAULTSHIM_SHORT=1: when the chosen operation is a write of >= 2 bytes it becomes a SHORT write (half of the bytes are
+ * written and that count is returned, as the kernel does when a limit is hit mid-call) and every later write on the
+ * same descriptor fails with FAULTSHIM_ERRNO.
+ *
+ * Log line: "<k> <tid> <op> <path> <ok|FAIL:<errno>|FAIL-SHORT:<requested>|err:<errno>>"
  */
 #define _GNU_SOURCE
 #include <dlfcn.h>
@@ -34,6 +38,9 @@ static int log_fd = -1;
 static int initialised = 0;
 #define MAXFD 4096
 static char *fd_path[MAXFD];
+static int short_mode = 0;          /* FAULTSHIM_SHORT=1: the chosen write is a SHORT write (half of the bytes are written and
+                                       reported), every later write on that descriptor fails with FAULTSHIM_ERRNO (no more room) */
+static char fd_full[MAXFD];
 
 static void init(void) {
     if (initialised) return;
@@ -41,6 +48,7 @@ static void init(void) {
     const char *e;
     if ((e = getenv("FAULTSHIM_FAIL_AT"))) fail_at = atol(e);
     if ((e = getenv("FAULTSHIM_ERRNO"))) fail_errno = atoi(e);
+    if ((e = getenv("FAULTSHIM_SHORT"))) short_mode = atoi(e);
     if ((e = getenv("FAULTSHIM_ROOT"))) { strncpy(root, e, sizeof(root) - 1); root_len = strlen(root); }
     if ((e = getenv("FAULTSHIM_LOG"))) log_fd = syscall(SYS_openat, AT_FDCWD, e, O_WRONLY | O_CREAT | O_APPEND | O_CLOEXEC, 0644);
 }
@@ -122,6 +130,7 @@ int creat(const char *path, mode_t mode) { return do_open("open", AT_FDCWD, path
 
 int close(int fd) {
     REAL(close);
+    if (fd >= 0 && fd < MAXFD) fd_full[fd] = 0;
     if (fd >= 0 && fd < MAXFD && fd_path[fd]) { free(fd_path[fd]); fd_path[fd] = NULL; }
     return real(fd);
 }
@@ -131,7 +140,17 @@ ssize_t write(int fd, const void *buf, size_t n) {
     init();
     if (fd >= 0 && fd < MAXFD && fd_path[fd]) {
         long k;
-        if (account("write", fd_path[fd], &k)) { logline(k, "write", fd_path[fd], "FAIL", fail_errno); errno = fail_errno; return -1; }
+        int chosen = account("write", fd_path[fd], &k);
+        if (fd_full[fd]) { logline(k, "write", fd_path[fd], "FAIL", fail_errno); errno = fail_errno; return -1; }
+        if (chosen && short_mode && n >= 2) {
+            ssize_t r = real(fd, buf, n / 2);
+            int e = errno;
+            fd_full[fd] = 1;
+            logline(k, "write", fd_path[fd], r >= 0 ? "FAIL-SHORT" : "err", r >= 0 ? (int)n : e);
+            errno = e;
+            return r;
+        }
+        if (chosen) { logline(k, "write", fd_path[fd], "FAIL", fail_errno); errno = fail_errno; return -1; }
         ssize_t r = real(fd, buf, n);
         int e = errno;
         logline(k, "write", fd_path[fd], r >= 0 ? "ok" : "err", r >= 0 ? 0 : e);
